@@ -174,6 +174,15 @@ func (m *c08Mon) After(w *world.World, op world.Op, res world.Res, pre interface
 			}
 		}
 	}
+	if cfg.RetainStore {
+		// a store that keeps the slices it was given: whatever was written must still be what its name says
+		for _, n := range w.Store.Names() {
+			if b, _ := w.Store.Has(n); ref.Name(b) != n {
+				out = append(out, explore.Finding{Sig: "C08|stored-bytes-changed-after-the-write", What: "bytes handed to Store were modified afterwards: a store that keeps the slice no longer holds the bytes its name is the hash of", Detail: n})
+				break
+			}
+		}
+	}
 	if isPersistOp(op.Kind) && res.Root != nil && res.Err == nil && res.Panic == nil {
 		c := w.ReadContents(w.Trees[op.A])
 		if c.Bad == "" {
